@@ -620,7 +620,7 @@ func (txn *Txn) commitAndSend() (func() error, error) {
 	}
 	ret := func() error {
 		err := req.Wait()
-		vhook.Point("txn.commit.applied")
+		vhook.PointID("txn.commit.applied", commitTs)
 		if err != nil {
 			vhook.Event("commitFailed", commitTs, 0)
 		}
@@ -629,7 +629,7 @@ func (txn *Txn) commitAndSend() (func() error, error) {
 		// callback here.
 		orc.doneCommit(commitTs)
 		vhook.Event("commitDone", commitTs, 0)
-		vhook.Point("txn.commit.done")
+		vhook.PointID("txn.commit.done", commitTs)
 		return err
 	}
 	return ret, nil
